@@ -45,9 +45,14 @@ def parse_reports(text):
             lib = [f for f in frames if f[0].startswith(LIB) and "/tests/fix44" not in f[0]]
             if lib:
                 acc.append("%s %s @ %s" % (m.group(1).split(" at ")[0].strip(), lib[0][0].replace(LIB, ""), os.path.basename(lib[0][1])))
+            elif frames and "verifharness" in frames[0][0] + "".join(f[0] for f in frames):
+                # the harness standing in for the connection's writer / the application: it reads what the library handed to it
+                # (message bytes received from Outgoing()); a library access that races with that read is the library's race
+                hf = [f for f in frames if "verifharness" in f[0]][0]
+                acc.append("%s (harness, consumer of what the library handed out) %s @ %s" % (m.group(1).split(" at ")[0].strip(), hf[0].split("/")[-1], os.path.basename(hf[1])))
             else:
                 acc.append(None)
-        if len(acc) >= 2 and acc[0] and acc[1]:
+        if len(acc) >= 2 and acc[0] and acc[1] and not ("(harness" in acc[0] and "(harness" in acc[1]):
             loc = re.search(r"(?:[Rr]ead|[Ww]rite) at (0x[0-9a-f]+)", block)
             out.append({"a": acc[0], "b": acc[1], "loc": loc.group(1) if loc else ""})
     return out
